@@ -875,9 +875,9 @@ pub fn witnesses() -> Vec<String> {
     "id: offglob\nlanguage: js\nseverity: off\nfiles: ['**/*.js', 'src/**']\nrule: {kind: identifier}\n".into(),
     "id: offglob2\nlanguage: js\nseverity: off\nignores: ['**/nothing/**']\nrule: {pattern: foo($$$A)}\n".into(),
     // expansions made of a bare relation: the related node lies BEFORE the match for expandEnd, AFTER it for expandStart
-    "id: expinv1\nlanguage: js\nrule: {kind: identifier}\nfix: {template: X, expandEnd: {follows: {kind: identifier, stopBy: end}}}\n".into(),
-    "id: expinv2\nlanguage: js\nrule: {kind: number}\nfix: {template: X, expandStart: {precedes: {kind: number, stopBy: end}}}\n".into(),
-    "id: expinv3\nlanguage: python\nrule: {kind: identifier}\nfix: {template: '', expandEnd: {follows: {kind: identifier, stopBy: end}}, expandStart: {precedes: {kind: identifier, stopBy: end}}}\n".into(),
+    "id: expinv1\nlanguage: js\nrule: {kind: identifier}\nfix: {template: X, expandEnd: {follows: {kind: number, stopBy: end}}}\n".into(),
+    "id: expinv2\nlanguage: js\nrule: {kind: identifier}\nfix: {template: X, expandStart: {precedes: {kind: number, stopBy: end}}}\n".into(),
+    "id: expinv3\nlanguage: python\nrule: {kind: identifier}\nfix: {template: '', expandEnd: {follows: {kind: integer, stopBy: end}}, expandStart: {precedes: {kind: integer, stopBy: end}}}\n".into(),
     "id: h9\nlanguage: js\nutils:\n  A: {inside: {matches: B, stopBy: end}}\n  B: {has: {matches: A, stopBy: end}}\nrule: {kind: identifier, matches: A}\n".into(),
     "id: dup\nlanguage: js\nrule: {pattern: foo($$$A)}\nrewriters:\n- {id: r, rule: {kind: identifier}, fix: x}\n- {id: r, rule: {kind: number}, fix: y}\n".into(),
     "id: of\nlanguage: js\nutils:\n  U: {nthChild: {position: 1, ofRule: {matches: U}}}\nrule: {matches: U}\n".into(),
